@@ -7,6 +7,7 @@ import OrasModel.Driver.O
 import OrasModel.Driver.Cr
 import OrasModel.Driver.Pf
 import OrasModel.Driver.Tr
+import OrasModel.Driver.Rt
 open Oras.Driver
 
 structure DState where
@@ -34,6 +35,9 @@ def handle (st : DState) (line : String) : DState × String :=
       | some (m, s) => (st, s!"m={m} s={s}")
       | none => (st, "bad-op"))
   | "tr" :: rest => (match Tr.step rest with
+      | some (m, s) => (st, s!"m={m} s={s}")
+      | none => (st, "bad-op"))
+  | "rt" :: rest => (match Rt.step rest with
       | some (m, s) => (st, s!"m={m} s={s}")
       | none => (st, "bad-op"))
   | "ref" :: rest => (match R.step rest with
